@@ -17,7 +17,8 @@
    operations on the flag can appear in the log in the opposite order (a waker
    preempted between its fetch_or and the log entry can be many entries late).
    The acceptor therefore reconstructs the order of the read-modify-write chain
-   from the recorded prior values: see "Order reconstruction" below. *)
+   from the recorded prior values and the AWAKE_BEGIN entries: see "Order
+   reconstruction" below. *)
 From Compio.Model Require Import Base Wake.
 From Compio.Gen Require Import Consts.
 Local Open Scope nat_scope.
@@ -148,297 +149,135 @@ Fixpoint dsteps (is_uring : bool) (s : dst) (es : list (N * N * N)) : option dst
   end.
 
 (* ---------------------------------------------------------------------- *)
-(* Order reconstruction.  The hooks log an operation after performing it, so a
-   waker's fetch_or can appear in the log long after driver operations that
-   really followed it.  The driver thread's own operations are in order; each
-   of its stores to the flag (reset -> IDLE, set -> AWAKE) starts a PHASE with
-   that base value.  A wake with prior = base is the FIRST wake of its phase
-   (it sets NOTIFIED), a wake with prior = base + NOTIFIED a LATER one.  The
-   recorded priors determine the order up to commuting operations iff every
-   wake can be assigned to a phase such that
-     - a phase has at most one first wake, and later wakes only with a first one
-       (possibly still to come in the log: a debt, to be paid by the end),
-     - a phase closed by reset(prior) has a first wake iff prior has NOTIFIED,
-     - along each thread the phases do not decrease, and a thread's first wake of
-       a phase is its first event in that phase,
-     - a wake is not assigned to a phase whose closing store was logged before
-       the wake's own AWAKE_BEGIN entry (that phase was over when the wake began),
-     - a wake is assigned to a phase that had started when it was logged, or -
-       the driver's own log entry being the late one - to the next phases (the
-       event is deferred and retried whenever the driver starts a phase).
-   Such an assignment yields an interleaving (per phase: the first wake, the
-   later wakes, the closing store) that reproduces every recorded prior.      *)
+(* Order reconstruction = linearizability check.
 
-Inductive closing := COpen | CBySet | CByReset (notified : bool).
+   Every AwakeFlag operation is bracketed in the log: AWAKE_BEGIN is recorded
+   before the atomic operation, the operation's own event (with the prior value
+   it found) after it.  The operation took effect somewhere between the two
+   entries.  A history is accepted iff the operations can be ordered such that
+     - each takes effect between its two log entries (so an operation whose
+       second entry precedes another's first entry comes first),
+     - every thread's events keep their order,
+     - the sequence is a run of [dstep]: every recorded prior equals the flag
+       value at that point, the driver thread walks through poll / flush, a
+       notifier write is made exactly by a thread that found the flag IDLE.
+   The search walks the log; an operation is given its place only when its
+   second entry is reached (any admissible order can be rearranged that way):
+   at that point some of the operations in flight (begun, not yet placed) are
+   placed, in some order, ending with the one whose entry was reached.  The
+   operations in flight are at most one per thread. *)
 
-Record phase := mk_ph {
-  ph_id : nat;
-  ph_base : N;            (* AWAKE_IDLE or AWAKE_AWAKE *)
-  ph_first : bool;        (* the first wake of the phase has been seen *)
-  ph_debt : bool;         (* a first wake is implied (later wake / closing prior) but not seen yet *)
-  ph_close : closing;
-  ph_closed_at : option nat   (* log index of the closing store's entry *)
-}.
+Record op := mk_op { o_id : nat; o_th : N; o_kind : N; o_arg : N }.
 
-Definition ph_set_first (p : phase) := mk_ph (ph_id p) (ph_base p) true false (ph_close p) (ph_closed_at p).
-Definition ph_set_debt (p : phase) := mk_ph (ph_id p) (ph_base p) (ph_first p) (negb (ph_first p)) (ph_close p) (ph_closed_at p).
-Definition ph_closed (cl : closing) (at_ : nat) (p : phase) := mk_ph (ph_id p) (ph_base p) (ph_first p) (ph_debt p) cl (Some at_).
+Inductive item :=
+| IInv (o : op)                         (* the operation begins *)
+| IRes (idx : nat) (id : nat)           (* its second log entry (at log index idx) *)
+| IOther (idx : nat) (k th a : N).      (* any other event *)
 
-(* the phase was not yet closed when the operation that began at log index [bg] started:
-   its closing store was logged at or after [bg] *)
-Definition alive (bg : option nat) (p : phase) : bool :=
-  match bg, ph_closed_at p with
-  | Some b, Some c => Nat.leb b c
-  | _, _ => true
+Definition is_flag_kind (k : N) : bool :=
+  match k with 20%N | 21%N | 22%N => true | _ => false end.
+
+(* the first flag event of thread th in the rest of the log *)
+Fixpoint find_res (th : N) (l : list N) : option (N * N) :=
+  match l with
+  | k :: t :: a :: r =>
+    if N.eqb t th && is_flag_kind k then Some (k, a) else find_res th r
+  | _ => None
   end.
-
-(* may this phase (still) receive a first wake / a later wake? *)
-Definition takes_first (p : phase) : bool :=
-  negb (ph_first p) &&
-  match ph_close p with COpen | CBySet => true | CByReset n => n end.
-Definition takes_later (p : phase) : bool :=
-  match ph_close p with CByReset false => false | _ => true end.
-
-Record ast := mk_ast {
-  a_drv : dst;                    (* the driver thread's automaton; its dflag is not used *)
-  a_phases : list phase;          (* most recent first; the head is open *)
-  a_last : list (N * nat);        (* per thread: the phase of its last wake *)
-  a_begin : list (N * nat);       (* per thread: log index of its last AWAKE_BEGIN *)
-  a_defer : list (nat * (N * N * N) * option nat)
-     (* (log index, event, begin index): waker events waiting for a phase that the
-        driver has started but not logged yet, in log order *)
-}.
 
 Fixpoint last_of (th : N) (l : list (N * nat)) : option nat :=
   match l with
   | [] => None
   | (t, k) :: r => if N.eqb t th then Some k else last_of th r
   end.
-Fixpoint set_last (th : N) (k : nat) (l : list (N * nat)) : list (N * nat) :=
+Fixpoint drop_th (th : N) (l : list (N * nat)) : list (N * nat) :=
   match l with
-  | [] => [(th, k)]
-  | (t, k0) :: r => if N.eqb t th then (t, k) :: r else (t, k0) :: set_last th k r
+  | [] => []
+  | (t, k) :: r => if N.eqb t th then r else (t, k) :: drop_th th r
   end.
 
-Definition base_of (prior : N) : N := N.land prior AWAKE_AWAKE.
-
-Definition PHASE_WINDOW : nat := 64.
-
-(* replace the first phase of [l] (within [w]) satisfying [ok] by [f] of it *)
-Fixpoint place (w : nat) (ok : phase -> bool) (f : phase -> phase) (l : list phase)
-  : option (nat * list phase) :=
-  match w, l with
-  | S w', p :: r =>
-    if ok p then Some (ph_id p, f p :: r)
-    else match place w' ok f r with
-         | Some (k, r') => Some (k, p :: r')
-         | None => None
-         end
-  | _, _ => None
-  end.
-
-Definition current_value (a : ast) : N :=
-  match a_phases a with
-  | p :: _ => if ph_first p || ph_debt p then fl_wake (ph_base p) else ph_base p
-  | [] => AWAKE_IDLE
-  end.
-
-(* a wake (fetch_or) with the recorded prior, by thread th *)
-Definition place_wake (a : ast) (bg : option nat) (th prior : N) : option ast :=
-  let b := base_of prior in
-  let later := has_notified prior in
-  let lo := last_of th (a_last a) in
-  let after_last (strict : bool) (p : phase) : bool :=
-    match lo with
-    | None => true
-    | Some k => if strict then Nat.ltb k (ph_id p) else Nat.leb k (ph_id p)
-    end in
-  let own := N.eqb th 0 in   (* the driver thread's own wake belongs to the open phase *)
-  let w := if own then 1 else PHASE_WINDOW in
-  let res :=
-    if later then
-      match place w (fun p => N.eqb (ph_base p) b && alive bg p && after_last false p && (ph_first p || ph_debt p))
-                  (fun p => p) (a_phases a) with
-      | Some r => Some r
-      | None =>
-        (* its first wake is not in the log yet: a debt *)
-        place w (fun p => N.eqb (ph_base p) b && alive bg p && after_last false p && takes_later p && takes_first p)
-              ph_set_debt (a_phases a)
+Fixpoint mk_items (i : nat) (open_ : list (N * nat)) (l : list N) : list item :=
+  match l with
+  | k :: th :: a :: r =>
+    if N.eqb k 29 then
+      match find_res th r with
+      | Some (k', a') => IInv (mk_op i th k' a') :: mk_items (S i) ((th, i) :: drop_th th open_) r
+      | None => mk_items (S i) open_ r       (* never completed within the log: not judged *)
       end
-    else
-      match place w (fun p => N.eqb (ph_base p) b && alive bg p && after_last true p && ph_debt p && takes_first p)
-                  ph_set_first (a_phases a) with
-      | Some r => Some r
-      | None =>
-        place w (fun p => N.eqb (ph_base p) b && alive bg p && after_last true p && takes_first p)
-              ph_set_first (a_phases a)
-      end in
-  match res with
-  | None => None
-  | Some (k, phs) =>
-    let dv := a_drv a in
-    if mem th (owing dv) then None else
-    let dv' := mk_dst (dflag dv) (dneed dv) (dph dv) (dnw dv)
-                      (if fl_idle prior then th :: owing dv else owing dv) (S (nwakes dv)) in
-    Some (mk_ast dv' phs (set_last th k (a_last a)) (a_begin a) (a_defer a))
+    else if is_flag_kind k then
+      match last_of th open_ with
+      | Some id => IRes i id :: mk_items (S i) (drop_th th open_) r
+      | None => IInv (mk_op i th k a) :: IRes i i :: mk_items (S i) open_ r   (* no begin entry *)
+      end
+    else IOther i k th a :: mk_items (S i) open_ r
+  | _ => []
   end.
 
-Definition new_phase (a : ast) (cl : closing) (at_ : nat) (base : N) : list phase :=
-  match a_phases a with
-  | p :: r => mk_ph (S (ph_id p)) base false false COpen None :: ph_closed cl at_ p :: r
-  | [] => [mk_ph 0 base false false COpen None]
-  end.
+Definition apply_op (is_uring : bool) (s : dst) (o : op) : option dst :=
+  dstep is_uring s (o_kind o) (o_th o) (o_arg o).
 
-(* reset with a prior that lacks NOTIFIED although the open phase holds a first
-   wake: that wake (and the later ones) really belong to the preceding phase of
-   the same base, whose NOTIFIED the intervening store discarded *)
-Definition relocate (a : ast) : option ast :=
-  match a_phases a with
-  | p :: q :: r =>
-    if (ph_first p || ph_debt p) && N.eqb (ph_base p) (ph_base q) && takes_first q && takes_later q
-    then
-      let q' := mk_ph (ph_id q) (ph_base q) (ph_first p) (ph_debt p) (ph_close q) (ph_closed_at q) in
-      let p' := mk_ph (ph_id p) (ph_base p) false false (ph_close p) (ph_closed_at p) in
-      Some (mk_ast (a_drv a) (p' :: q' :: r)
-                   (map (fun tk => if Nat.eqb (snd tk) (ph_id p) then (fst tk, ph_id q) else tk) (a_last a))
-                   (a_begin a) (a_defer a))
-    else None
-  | _ => None
-  end.
-
-(* reset with a NOTIFIED prior although the open phase holds no wake, while the
-   preceding phase of the same base (closed by a plain store) does: the
-   driver's store was logged late, those wakes came after it *)
-Definition pull_forward (a : ast) : option ast :=
-  match a_phases a with
-  | p :: q :: r =>
-    if negb (ph_first p || ph_debt p) && (ph_first q || ph_debt q) && N.eqb (ph_base p) (ph_base q)
-       && match ph_close q with CBySet => true | _ => false end
-    then
-      let p' := mk_ph (ph_id p) (ph_base p) (ph_first q) (ph_debt q) (ph_close p) (ph_closed_at p) in
-      let q' := mk_ph (ph_id q) (ph_base q) false false (ph_close q) (ph_closed_at q) in
-      Some (mk_ast (a_drv a) (p' :: q' :: r)
-                   (map (fun tk => if Nat.eqb (snd tk) (ph_id q) then (fst tk, ph_id p) else tk) (a_last a))
-                   (a_begin a) (a_defer a))
-    else None
-  | _ => None
-  end.
-
-Definition astep_now (is_uring : bool) (i : nat) (bg : option nat) (a : ast) (kind th arg : N) : option ast :=
-  match kind with
-  | 22%N => place_wake a bg th arg
-  | 21%N =>
-    (* reset: the prior must agree with the open phase; a NOTIFIED prior without
-       a first wake seen so far is a debt *)
-    let n := has_notified arg in
-    let a1 :=
-      match a_phases a with
-      | p :: _ => if negb n && (ph_first p || ph_debt p)
-                  then match relocate a with Some a' => a' | None => a end
-                  else if n && negb (ph_first p || ph_debt p)
-                  then match pull_forward a with Some a' => a' | None => a end
-                  else a
-      | [] => a
-      end in
-    match a_phases a1 with
-    | [] => None
-    | p :: _ =>
-      if N.eqb (base_of arg) (ph_base p) && (n || negb (ph_first p || ph_debt p)) then
-        (* run the driver automaton on a flag value that matches *)
-        let dv := a_drv a1 in
-        match dstep is_uring (mk_dst arg (dneed dv) (dph dv) (dnw dv) (owing dv) (nwakes dv)) kind th arg with
-        | None => None
-        | Some dv' =>
-          let p' := if n then ph_set_debt p else p in
-          let a' := mk_ast dv' (p' :: tl (a_phases a1)) (a_last a1) (a_begin a1) (a_defer a1) in
-          Some (mk_ast dv' (new_phase a' (CByReset n) i AWAKE_IDLE) (a_last a1) (a_begin a1) (a_defer a1))
-        end
-      else None
-    end
-  | 20%N =>
-    match dstep is_uring (a_drv a) kind th arg with
-    | None => None
-    | Some dv' => Some (mk_ast dv' (new_phase a CBySet i AWAKE_AWAKE) (a_last a) (a_begin a) (a_defer a))
-    end
-  | _ =>
-    match dstep is_uring (a_drv a) kind th arg with
-    | None => None
-    | Some dv' => Some (mk_ast dv' (a_phases a) (a_last a) (a_begin a) (a_defer a))
-    end
-  end.
-
-Definition has_deferred (th : N) (l : list (nat * (N * N * N) * option nat)) : bool :=
-  existsb (fun x => N.eqb (snd (fst (snd (fst x)))) th) l.
-
-(* retry the deferred events in order; an event stays deferred when it still
-   cannot be placed or when an earlier event of its thread stays deferred *)
-Fixpoint retry (is_uring : bool) (a : ast) (l : list (nat * (N * N * N) * option nat))
-               (kept : list (nat * (N * N * N) * option nat)) : ast :=
+Fixpoint remove_op (id : nat) (l : list op) : list op :=
   match l with
-  | [] => mk_ast (a_drv a) (a_phases a) (a_last a) (a_begin a) kept
-  | x :: r =>
-    let '(k, th, arg) := snd (fst x) in
-    if has_deferred th kept then retry is_uring a r (kept ++ [x]) else
-    match astep_now is_uring (fst (fst x)) (snd x) a k th arg with
-    | Some a' => retry is_uring a' r kept
-    | None => retry is_uring a r (kept ++ [x])
-    end
+  | [] => []
+  | o :: r => if Nat.eqb (o_id o) id then r else o :: remove_op id r
+  end.
+Definition memn (x : nat) (l : list nat) : bool := existsb (Nat.eqb x) l.
+Fixpoint removen (x : nat) (l : list nat) : list nat :=
+  match l with
+  | [] => []
+  | y :: r => if Nat.eqb x y then r else y :: removen x r
   end.
 
-Definition DEFER_MAX : nat := 64.
-
-Definition astep (is_uring : bool) (i : nat) (a : ast) (kind th arg : N) : option ast :=
-  if N.eqb kind 29 then
-    Some (mk_ast (a_drv a) (a_phases a) (a_last a) (set_last th i (a_begin a)) (a_defer a))
-  else
-  let bg := last_of th (a_begin a) in
-  let waker_ev := match kind with 22%N | 23%N => negb (N.eqb th 0) | _ => false end in
-  if waker_ev && has_deferred th (a_defer a) then
-    if Nat.ltb (length (a_defer a)) DEFER_MAX
-    then Some (mk_ast (a_drv a) (a_phases a) (a_last a) (a_begin a) (a_defer a ++ [(i, (kind, th, arg), bg)]))
-    else None
-  else
-  match astep_now is_uring i bg a kind th arg with
-  | Some a' =>
-    match kind with
-    | 20%N | 21%N => Some (retry is_uring a' (a_defer a') [])   (* a new phase has started *)
-    | _ => Some a'
-    end
-  | None =>
-    if waker_ev && N.eqb kind 22 && Nat.ltb (length (a_defer a)) DEFER_MAX
-    then Some (mk_ast (a_drv a) (a_phases a) (a_last a) (a_begin a) (a_defer a ++ [(i, (kind, th, arg), bg)]))
-    else None
+(* all ways to place some of the operations in flight, ending with [target]:
+   (state after, operations still in flight, ids placed before the target) *)
+Fixpoint batches (fuel : nat) (is_uring : bool) (s : dst) (pend : list op) (target : nat)
+                 (placed : list nat) : list (dst * list op * list nat) :=
+  match fuel with
+  | O => []
+  | S f =>
+    flat_map (fun o =>
+      match apply_op is_uring s o with
+      | None => []
+      | Some s' =>
+        if Nat.eqb (o_id o) target
+        then [(s', remove_op target pend, placed)]
+        else batches f is_uring s' (remove_op (o_id o) pend) target (o_id o :: placed)
+      end) pend
   end.
 
-Definition ainit : ast := mk_ast dinit [mk_ph 0 AWAKE_IDLE false false COpen None] [] [] [].
-
-Fixpoint areplay (is_uring : bool) (a : ast) (es : list N) (i : nat) : ast + nat :=
-  match es with
-  | k :: th :: arg :: r =>
-    match astep is_uring i a k th arg with
-    | Some a' => areplay is_uring a' r (S i)
-    | None => inr i
+(* returns (accepted, remaining budget, furthest log index reached, final state) *)
+Fixpoint walk (is_uring : bool) (items : list item) (s : dst) (pend : list op) (done : list nat)
+              (budget : N) (far : nat) : bool * N * nat * dst :=
+  match items with
+  | [] => (isnil (owing s), budget, far, s)
+  | IInv o :: r => walk is_uring r s (pend ++ [o]) done budget far
+  | IOther idx k th a :: r =>
+    match dstep is_uring s k th a with
+    | Some s' => walk is_uring r s' pend done budget idx
+    | None => (false, budget, idx, s)
     end
-  | _ => inl a
+  | IRes idx id :: r =>
+    if memn id done then walk is_uring r s pend (removen id done) budget idx else
+    (fix try (cs : list (dst * list op * list nat)) (budget : N) (far : nat) : bool * N * nat * dst :=
+       match cs with
+       | [] => (false, budget, far, s)
+       | (s', pend', placed) :: more =>
+         if N.eqb budget 0 then (false, 0%N, far, s) else
+         match walk is_uring r s' pend' (placed ++ done) (budget - 1)%N idx with
+         | (true, b, f, sf) => (true, b, f, sf)
+         | (false, b, f, _) => try more b (Nat.max far f)
+         end
+       end) (batches (S (length pend)) is_uring s pend id []) budget idx
   end.
-
-Definition no_debt (a : ast) : bool := forallb (fun p => negb (ph_debt p)) (a_phases a).
 
 Definition run_c03 (l : list N) : list N :=
   match l with
   | drv :: n :: r =>
     if negb (N.leb drv 1) then BAD_CASE else
     if negb (Nat.eqb (length r) (3 * nn n)) then BAD_CASE else
-    match areplay (N.eqb drv 0) ainit r 0 with
-    | inl a =>
-      match a_defer a with
-      | x :: _ => [0%N; NN (fst (fst x)); fst (fst (snd (fst x)))]   (* a wake that fits no phase *)
-      | [] =>
-        if isnil (owing (a_drv a)) && no_debt a
-        then [1%N; n; NN (nwakes (a_drv a))]
-        else [0%N; n; 0%N]      (* a notifier write or a first wake never showed up *)
-      end
-    | inr i => [0%N; NN i; nth (3 * i) r 0%N]
+    match walk (N.eqb drv 0) (mk_items 0 [] r) dinit [] [] (50 * n + 5000)%N 0 with
+    | (true, _, _, sf) => [1%N; n; NN (nwakes sf)]
+    | (false, _, far, _) => [0%N; NN far; nth (3 * far) r 0%N]
     end
   | _ => BAD_CASE
   end.
